@@ -21,54 +21,17 @@ mod verif_kani {
         drop(buf);
     }
 
-    /// two inserts of arbitrary sizes (0..=14 bytes of key+value each) into a buffer of 16 or 32 bytes: covers exact
-    /// fit, one doubling and entries that need two doublings; then every stored entry is read back through iter().
+    /// a request that cannot be represented (rounded size would exceed isize::MAX, or rounding itself would wrap) must be
+    /// refused by a defined panic on every path: no wrapped size, no zero-size allocation (complete: all such sizes)
+    /// (the runner accepts exactly the two defined refusals as failed checks -- `expect`/`unwrap` panics, listed in
+    /// kani/expected_panics.json -- and nothing else: an arithmetic-overflow check or a returned buffer fails the harness)
     #[kani::proof]
-    #[kani::unwind(20)]
-    fn c17_entries_insert_realloc_iter() {
-        let cap: usize = kani::any();
-        kani::assume(cap >= 1 && cap <= 32);
-        let mut e = Entries::with_capacity(cap);
-        let k1: [u8; 4] = kani::any(); let v1: [u8; 10] = kani::any();
-        let (a, b): (usize, usize) = (kani::any(), kani::any());
-        kani::assume(a <= 4 && b <= 10);
-        e.insert(&k1[..a], &v1[..b]);
-        assert!(e.bounds_count == 1 && e.entries_len == a + b);
-        assert!(e.entries_len + e.bounds_count * size_of::<EntryBound>() <= e.buffer.len());
-        let k2: [u8; 4] = kani::any(); let v2: [u8; 10] = kani::any();
-        let (c, d): (usize, usize) = (kani::any(), kani::any());
-        kani::assume(c <= 4 && d <= 10);
-        e.insert(&k2[..c], &v2[..d]);
-        assert!(e.bounds_count == 2 && e.entries_len == a + b + c + d);
-        assert!(e.entries_len + e.bounds_count * size_of::<EntryBound>() <= e.buffer.len());
-        assert!(e.buffer.len() % size_of::<EntryBound>() == 0);
-        let mut it = e.iter();
-        let (rk1, rv1) = it.next().unwrap();
-        assert!(rk1.len() == a && rv1.len() == b);
-        if a > 0 { assert!(rk1[0] == k1[0] && rk1[a - 1] == k1[a - 1]); }
-        if b > 0 { assert!(rv1[0] == v1[0] && rv1[b - 1] == v1[b - 1]); }
-        let (rk2, rv2) = it.next().unwrap();
-        assert!(rk2.len() == c && rv2.len() == d);
-        if c > 0 { assert!(rk2[0] == k2[0] && rk2[c - 1] == k2[c - 1]); }
-        if d > 0 { assert!(rv2[0] == v2[0] && rv2[d - 1] == v2[d - 1]); }
-        assert!(it.next().is_none());
-    }
-
-    /// one insert that needs MORE than one doubling (entry of 16 + 4 + 30 = 50 bytes into a 16-byte buffer: 16 -> 32 -> 64),
-    /// sizes concrete, contents symbolic: no arithmetic underflow, no out-of-buffer access, entry read back intact.
-    #[kani::proof]
-    #[kani::unwind(66)]
-    fn c17_entries_insert_needs_two_doublings() {
-        let mut e = Entries::with_capacity(16);
-        let k: [u8; 4] = kani::any(); let v: [u8; 30] = kani::any();
-        e.insert(&k[..], &v[..]);
-        assert!(e.bounds_count == 1 && e.entries_len == 34);
-        assert!(e.entries_len + e.bounds_count * size_of::<EntryBound>() <= e.buffer.len());
-        let mut it = e.iter();
-        let (rk, rv) = it.next().unwrap();
-        assert!(rk.len() == 4 && rv.len() == 30);
-        assert!(rk[0] == k[0] && rk[3] == k[3] && rv[0] == v[0] && rv[29] == v[29]);
-        assert!(it.next().is_none());
+    fn c17_buffer_new_refuses_unrepresentable_sizes() {
+        let size: usize = kani::any();
+        kani::assume(size > isize::MAX as usize - 15);
+        let buf = EntryBoundAlignedBuffer::new(size);
+        core::mem::forget(buf);
+        panic!("a buffer was returned for an unrepresentable request");
     }
 
     /// fits() is exact: an entry fits iff one more 16-byte bound and its bytes fit between the two ends
